@@ -510,7 +510,7 @@ def program_stream(ctx):
         depth = 4
     else:
         seqs = G.sequences(4, 2)
-        n_random = 60000
+        n_random = 40000
         depth = 5
     for names, final in seqs:
         prog, path = G.build_sequence(names, final)
@@ -631,6 +631,12 @@ def observe(ctx: fw.Ctx, stream, correspond: bool):
         ctx.count("spec:" + (spec[0] if spec[0] == "bound" else ":".join(spec)))
         if agrees(real, spec) != (rep[3] == "t") and model == real:
             ctx.tie_break("correspondence", "harness and Lean `agrees` differ", request=[real, spec])
+        in_fragment = rep[5] == "t"
+        if in_fragment != (not rep[4]):
+            ctx.tie_break("correspondence", "InFragment differs from `no root-cause class holds`",
+                          request={"text": G.render(prog), "path": list(p)}, model=[rep[4], rep[5]])
+        if in_fragment:
+            ctx.count("in_fragment_of_resolve_partial")
         if not agrees(real, spec):
             deviations.append((label, prog, p, real, spec, rep[4]))
     ctx.count("correspondence_disagreements", bad)
